@@ -12,7 +12,7 @@ CONSTANTS
   NV = 1
   MaxFreeze = 2
   WithUse = TRUE
-  CapRule = "slots"
+  CapRule = "free"
   Mutant = "thaw_head"
 INVARIANTS TypeOK CountsMatch NoDuplicate Reachable NullExists ProbesTerminate NoHang MruMatches ValMatches WaterMarks NotStuck AbsInv
 PROPERTY AbsSpec
